@@ -285,9 +285,14 @@ func VerifH_C15_ticks() {
 	var calls []chainhash.Hash
 	ntfns := make(chan blockntfns.BlockNtfn)
 	reject := map[chainhash.Hash]bool{}
+	var hold chan struct{} // rebroadcast callbacks wait here (slow peers)
+	inRequest := false
 	b := NewBroadcaster(&Config{
 		Broadcast: func(tx *wire.MsgTx) error {
 			calls = append(calls, tx.TxHash())
+			if hold != nil && !inRequest {
+				<-hold
+			}
 			if reject[tx.TxHash()] {
 				return &BroadcastError{Code: Invalid, Reason: "invalid"}
 			}
@@ -319,7 +324,9 @@ func VerifH_C15_ticks() {
 	rej := vpRange("rejected", -1, 1)
 	for _, k := range seq {
 		reject[hashes[k]] = k == rej
+		inRequest = true
 		err := b.Broadcast(txs[k])
+		inRequest = false
 		if k == rej {
 			vpAssert(err != nil, "rejected-broadcast-reports-failure")
 		} else {
@@ -365,6 +372,34 @@ func VerifH_C15_ticks() {
 			vpReach("parent-and-child-pending-at-a-tick")
 			vpAssert(len(got) == 2 && got[0] == hashes[0] && got[1] == hashes[1], "parent-before-child-at-a-tick")
 		}
+	}
+	// a tick that finds the previous rebroadcast still running starts nothing,
+	// and the ticks after that rebroadcast has finished work as before
+	npend := 0
+	for _, h := range hashes {
+		if pending[h] {
+			npend++
+		}
+	}
+	if npend > 0 && vpParam("slowpeers", 1) == 1 && vpRange("tickDuringARunningRebroadcast", 0, 1) == 1 {
+		hold = make(chan struct{})
+		before := len(calls)
+		time.Sleep(time.Minute + time.Millisecond) // this tick starts a rebroadcast whose first callback waits
+		vpQuiesce()
+		vpAssert(len(calls) == before+1, "tick-starts-a-rebroadcast")
+		time.Sleep(time.Minute) // the next tick finds it still running
+		vpQuiesce()
+		vpAssert(len(calls) == before+1, "no-second-rebroadcast-while-one-is-running")
+		h := hold
+		hold = nil
+		close(h)
+		vpQuiesce()
+		vpAssert(len(calls) == before+npend, "held-rebroadcast-completes")
+		vpReach("tick-during-a-running-rebroadcast")
+		before = len(calls)
+		time.Sleep(time.Minute + time.Millisecond)
+		vpQuiesce()
+		vpAssert(len(calls) == before+npend, "ticks-keep-rebroadcasting-after-a-skipped-tick")
 	}
 	b.Stop()
 }
